@@ -180,8 +180,30 @@ _ALL = {
              'The numeric rate bound and fairness are arithmetic over time and are not decided.'),
 }
 
+# clauses decided by rules that were added during the build (appended to the explanations above)
+_EXTRA = {
+    'C03': ' Also: no foreign DELETE runs between reading a rowid and the write that uses it (L9); every mutating method '
+           'reports what it did, result tuples come from one row in the requested shape, iteration is primed at call '
+           'time and sentinel lookups raise KeyError (B1-B3).',
+    'C04': ' Also: liveness is decided with a clock read after the lock was obtained (X4 - violated in touch/add/incr, '
+           'known finding C04-F3); the lazy removal cannot delete the row an operation is about to rewrite (L9).',
+    'C05': ' Also: row identity (L9) and re-entrancy of the shared Disk object (K7).',
+    'C10': ' Also: pull/peek results are (key, value) of the selected row in the requested shape (B2).',
+    'C11': ' Also: each method delegates to the right primitive with the right side/sentinel/retry constants and '
+           'rotate re-inserts exactly what it popped (I1, L3).',
+    'C12': ' Also: the delegation table and the sentinel-based equality hold (I1, L3).',
+    'C16': ' Also: decorator factories keep no state between decorated functions (M4); the lookup result shape survives '
+           'the vanished-file path that memoize_stampede unpacks (B2).',
+    'C17': ' Also: both directory scans run on every path and compare os.path.join-ed paths (H4).',
+    'C18': ' Also: setting prefixes are stripped exactly and reset() writes through to the Settings table (B5, B6); '
+           'connections are opened in autocommit mode with the object\'s timeout (L6).',
+    'C19': ' Also: every method performs exactly one downstream operation on every return path (D4).',
+}
 PROPS = {}
 for _pid, _spec in _ALL.items():
+    if _pid in _EXTRA:
+        _spec = dict(_spec)
+        _spec['explanation'] = _spec['explanation'] + _EXTRA[_pid]
     PROPS[_pid] = _spec
 
 
